@@ -656,3 +656,212 @@ package ecs
 //@   flag convcheck nodirty noframe
 //@   ensures arch != nil
 //@   modifies *(&w.archetypes), *(&w.archetypeData), all(nodeData.freeIndices), all(archetypeData.index), all(cacheEntry.Indices), all(nodeData.archetype), all(archNode.IsActive)
+
+// ---------------------------------------------------------------------------------------------
+// C02 — entity pool
+// ---------------------------------------------------------------------------------------------
+// Ghost view (as for the bit pool): estk/erank is a permutation of the ids 1..len-1 over positions
+// 0..len-2; positions below `available` are the free list (top at available-1, linked through the
+// id field of the free slots); eused[i] is "id i is alive"; issued[(id,gen)] is "this handle was
+// handed out since creation / the last reset".
+
+//@ ghostfield entityPool.estk map[int]eid
+//@ ghostfield entityPool.erank map[eid]int
+//@ ghostfield entityPool.eused map[eid]bool
+//@ ghostfield entityPool.issued map[Entity]bool
+
+//@ pred poolN(p *entityPool) int = len(p.entities) - 1
+
+//@ pred poolInv(p *entityPool) bool =
+//@   len(p.entities) >= 1 && p.entities[0].id == 0 && p.entities[0].gen == 4294967295
+//@   && int(p.available) <= poolN(p)
+//@   && (forall h int :: {p.estk[h]} 0 <= h && h < poolN(p) ==> 1 <= int(p.estk[h]) && int(p.estk[h]) <= poolN(p) && p.erank[p.estk[h]] == h)
+//@   && (forall i eid :: {p.erank[i]} 1 <= int(i) && int(i) <= poolN(p) ==> 0 <= p.erank[i] && p.erank[i] < poolN(p) && p.estk[p.erank[i]] == i)
+//@   && (p.available > 0 ==> p.next == p.estk[int(p.available) - 1])
+//@   && (forall h int :: {p.estk[h]} 1 <= h && h < int(p.available) ==> p.entities[int(p.estk[h])].id == p.estk[h - 1])
+//@   && (forall i eid :: {p.erank[i]} p.eused[i] == (1 <= int(i) && int(i) <= poolN(p) && p.erank[i] >= int(p.available)))
+//@   && (forall i eid :: {p.eused[i]} p.eused[i] ==> p.entities[int(i)].id == i)
+
+//@ pred issuedInv(p *entityPool) bool =
+//@   forall i eid, g uint32 :: {p.issued[mk(Entity, i, g)]} p.issued[mk(Entity, i, g)] ==>
+//@      1 <= int(i) && int(i) <= poolN(p) && (g < p.entities[int(i)].gen || (g == p.entities[int(i)].gen && p.eused[i]))
+
+//@ func newEntity(id) (e)
+//@   props C02
+//@   ensures e.id == id && e.gen == 0
+
+//@ func entityPool.Get(p) (e)
+//@   props C02 C13
+//@   requires poolInv(p) && issuedInv(p)
+//@   requires len(p.entities) < 1073741823 && p.capacityIncrement < 1073741823
+//@   ghost p.eused[e.id] := true
+//@   ghost p.issued[e] := true
+//@   ensures poolInv(p) && issuedInv(p)
+//@   ensures int(e.id) >= 1 && !old(p.eused[e.id]) && p.eused[e.id] && e.gen == p.entities[int(e.id)].gen
+//@   ensures !old(p.issued[e]) && p.issued[e]
+//@   ensures forall i eid :: {p.eused[i]} i != e.id ==> p.eused[i] == old(p.eused[i])
+//@   ensures forall i int :: {p.entities[i].gen} 0 <= i && i < old(len(p.entities)) ==> p.entities[i].gen == old(p.entities[i].gen)
+//@   ensures old(p.available) > 0 ==> e.id == old(p.estk[int(p.available) - 1]) && len(p.entities) == old(len(p.entities)) && p.available == old(p.available) - 1
+//@   ensures old(p.available) == 0 ==> int(e.id) == old(len(p.entities)) && len(p.entities) == old(len(p.entities)) + 1 && e.gen == 0 && p.available == 0
+//@   modifies *p, p.entities[ALL]
+
+//@ func entityPool.getNew(p) (e)
+//@   props C02
+//@   requires poolInv(p) && issuedInv(p) && p.available == 0
+//@   requires len(p.entities) < 1073741823 && p.capacityIncrement < 1073741823
+//@   ghost p.estk[old(poolN(p))] := e.id
+//@   ghost p.erank[e.id] := old(poolN(p))
+//@   ghost p.eused[e.id] := true
+//@   ensures poolInv(p) && issuedInv(p)
+//@   ensures int(e.id) == old(len(p.entities)) && e.gen == 0 && len(p.entities) == old(len(p.entities)) + 1 && p.available == 0
+//@   ensures !old(p.eused[e.id]) && p.eused[e.id]
+//@   ensures forall i eid :: {p.eused[i]} i != e.id ==> p.eused[i] == old(p.eused[i])
+//@   ensures forall i int :: {p.entities[i].gen} 0 <= i && i < old(len(p.entities)) ==> p.entities[i].gen == old(p.entities[i].gen)
+//@   ensures p.entities[int(e.id)].gen == 0
+//@   ensures forall i eid, g uint32 :: {p.issued[mk(Entity, i, g)]} p.issued[mk(Entity, i, g)] == old(p.issued[mk(Entity, i, g)])
+//@   modifies *p, p.entities[ALL]
+
+//@ func entityPool.Recycle(p, e)
+//@   props C02 C13
+//@   requires poolInv(p) && issuedInv(p) && int(e.id) < len(p.entities)
+//@   requires p.eused[e.id] && p.entities[int(e.id)].gen == e.gen
+//@   known C02-gen-wrap: requires p.entities[int(e.id)].gen != 4294967295
+//@   panics_if e.id == 0
+//@   flag panic_clean
+//@   ghost p.estk[old(p.erank[e.id])] := old(p.estk[int(p.available)])
+//@   ghost p.erank[old(p.estk[int(p.available)])] := old(p.erank[e.id])
+//@   ghost p.estk[int(old(p.available))] := e.id
+//@   ghost p.erank[e.id] := int(old(p.available))
+//@   ghost p.eused[e.id] := false
+//@   ensures poolInv(p) && issuedInv(p)
+//@   ensures !p.eused[e.id] && p.entities[int(e.id)].gen == e.gen + 1 && len(p.entities) == old(len(p.entities)) && p.available == old(p.available) + 1
+//@   ensures forall i eid :: {p.eused[i]} i != e.id ==> p.eused[i] == old(p.eused[i])
+//@   ensures forall i int :: {p.entities[i].gen} 0 <= i && i < len(p.entities) && i != int(e.id) ==> p.entities[i].gen == old(p.entities[i].gen)
+//@   ensures forall i eid, g uint32 :: {p.issued[mk(Entity, i, g)]} p.issued[mk(Entity, i, g)] == old(p.issued[mk(Entity, i, g)])
+//@   modifies p.next, p.available, p.estk, p.erank, p.eused, p.entities[int(e.id)]
+
+//@ func entityPool.Alive(p, e) (r)
+//@   props C02
+//@   requires int(e.id) < len(p.entities)
+//@   ensures r == (e.gen == p.entities[int(e.id)].gen)
+
+//@ func entityPool.Reset(p)
+//@   props C02 C15
+//@   requires poolInv(p)
+//@   ghost p.eused := const(false)
+//@   ghost p.issued := const(false)
+//@   ensures poolInv(p) && issuedInv(p) && len(p.entities) == 1 && p.available == 0
+//@   modifies p.entities, p.next, p.available, p.eused, p.issued
+
+//@ func entityPool.Len(p) (n)
+//@   props C02
+//@   ensures n == len(p.entities) - 1 - int(p.available)
+
+//@ func newEntityPool(capacityIncrement) (p)
+//@   props C02
+//@   requires capacityIncrement >= 1 && capacityIncrement < 1073741823
+//@   ensures len(p.entities) == 1 && p.entities[0].id == 0 && p.entities[0].gen == 4294967295 && p.available == 0 && p.next == 0
+
+// a handle whose id was recycled since it was issued is never reported alive; the zero entity is never alive
+//@ lemma deadForever(p *entityPool, e Entity)
+//@   props C02
+//@   requires poolInv(p) && issuedInv(p) && p.issued[e] && !(p.eused[e.id] && e.gen == p.entities[int(e.id)].gen)
+//@   ensures e.gen != p.entities[int(e.id)].gen
+//@ lemma zeroNeverAlive(p *entityPool)
+//@   props C02
+//@   requires poolInv(p)
+//@   ensures p.entities[0].gen != 0 && !p.eused[0]
+//@ lemma aliveUnique(p *entityPool, a Entity, b Entity)
+//@   props C02
+//@   requires poolInv(p) && int(a.id) < len(p.entities) && int(b.id) < len(p.entities)
+//@   requires a.gen == p.entities[int(a.id)].gen && b.gen == p.entities[int(b.id)].gen && a.id == b.id
+//@   ensures a == b
+
+// ---- C02: world-side index sizing ---------------------------------------------------------------
+// The entity index (w.entities) and the target bit set are sized by the pool; every write indexed by an
+// entity id is proved in bounds for every mix of recycled and fresh ids. Table storage (Alloc, AllocN,
+// SetEntity) is unsafe memory: thin assumed contracts.
+
+//@ pred bitSetCovers(b *bitSet, n int) bool = 64 * len(b.data) >= n
+
+//@ func bitSet.Get(b, bit) (r)
+//@   props C02 C06
+//@   requires bitSetCovers(b, int(bit) + 1)
+//@   ensures r == (((b.data[int(bit) / 64] >> (uint64(bit) % 64)) & 1) == 1)
+
+//@ func bitSet.Set(b, bit, value)
+//@   props C02 C06
+//@   requires bitSetCovers(b, int(bit) + 1)
+//@   ensures (((b.data[int(bit) / 64] >> (uint64(bit) % 64)) & 1) == 1) == value
+//@   ensures len(b.data) == old(len(b.data))
+//@   modifies b.data[int(bit) / 64]
+
+// 64-bit non-linear arithmetic (multiplication and division) is beyond the SMT back ends within the time limits:
+// the contract of capacity() is assumed (it is the arithmetic fact increment*ceil(size/increment)).
+//@ func capacity(size, increment) (r)
+//@   flag trusted
+//@   requires 0 <= size && size < 1073741823 && 1 <= increment && increment < 1073741823
+//@   ensures r >= size && r < size + increment && r % increment == 0
+
+//@ func bitSet.ExtendTo(b, length)
+//@   props C02 C17
+//@   requires 0 <= length && length < 2147483000
+//@   ensures bitSetCovers(b, length) && len(b.data) >= old(len(b.data))
+//@   modifies b.data
+
+//@ func bitSet.Reset(b)
+//@   props C02 C15
+//@   ensures len(b.data) == old(len(b.data))
+//@   ensures forall k int :: {b.data[k]} 0 <= k && k < len(b.data) ==> b.data[k] == 0
+//@   modifies b.data[ALL]
+//@   loop #1
+//@   inv forall k int :: {b.data[k]} 0 <= k && k < $i ==> b.data[k] == 0
+
+//@ func archetype.Alloc(a, entity) (idx)
+//@   flag trusted nodirty
+//@   ensures idx == old(a.len) && a.len == old(a.len) + 1
+//@   modifies a.len, a.cap, a.archetypeAccess.entityPointer, all(layout.pointer)
+//@ func archetype.AllocN(a, count)
+//@   flag trusted nodirty
+//@   ensures a.len == old(a.len) + count
+//@   modifies a.len, a.cap, a.archetypeAccess.entityPointer, all(layout.pointer)
+//@ func archetype.SetEntity(a, index, entity)
+//@   flag trusted nodirty
+//@ func archetype.Len(a) (n)
+//@   props C02
+//@   ensures n == a.len
+
+//@ pred worldIdxInv(w *World) bool =
+//@   poolInv(&w.entityPool) && issuedInv(&w.entityPool)
+//@   && len(w.entities) == len(w.entityPool.entities) && bitSetCovers(&w.targetEntities, len(w.entities))
+//@   && w.config.CapacityIncrement >= 1 && w.config.CapacityIncrement < 1073741823
+//@   && int(w.entityPool.capacityIncrement) == w.config.CapacityIncrement
+
+//@ func World.Alive(w, entity) (r)
+//@   props C02
+//@   requires int(entity.id) < len(w.entityPool.entities)
+//@   ensures r == (entity.gen == w.entityPool.entities[int(entity.id)].gen)
+
+// (draft, not yet discharged within the time limits: not counted for any property)
+//@ func World.createEntity(w, arch) (e)
+//@   requires worldIdxInv(w) && arch != nil && len(w.entities) < 1073741823
+//@   flag noframe
+//@   ensures worldIdxInv(w)
+//@   ensures int(e.id) >= 1 && !old(w.entityPool.eused[e.id]) && w.entityPool.eused[e.id] && e.gen == w.entityPool.entities[int(e.id)].gen
+//@   ensures !old(w.entityPool.issued[e]) && w.entityPool.issued[e]
+//@   ensures forall i eid :: {w.entityPool.eused[i]} i != e.id ==> w.entityPool.eused[i] == old(w.entityPool.eused[i])
+//@   ensures w.entities[int(e.id)].arch == arch && w.entities[int(e.id)].index == old(arch.len)
+//@   modifies *(&w.entityPool), w.entities, w.entities[ALL]
+
+// (draft, not yet discharged within the time limits: not counted for any property)
+//@ func World.createEntities(w, arch, count)
+//@   requires worldIdxInv(w) && arch != nil && len(w.entities) < 536870911 && count >= 1 && count < 536870911
+//@   flag noframe
+//@   ensures worldIdxInv(w)
+//@   ensures len(w.entityPool.entities) - 1 - int(w.entityPool.available) == old(len(w.entityPool.entities) - 1 - int(w.entityPool.available)) + int(count)
+//@   loop #1
+//@   inv worldIdxInv(w) && i <= count
+//@   inv len(w.entityPool.entities) - 1 - int(w.entityPool.available) == old(len(w.entityPool.entities) - 1 - int(w.entityPool.available)) + int(i)
+//@   inv len(w.entities) >= old(len(w.entities)) + int(count) - old(int(w.entityPool.available)) && len(w.entities) >= old(len(w.entities))
+//@   inv int(w.entityPool.available) + int(i) >= old(int(w.entityPool.available)) || w.entityPool.available == 0
+//@   inv len(w.entityPool.entities) <= old(len(w.entities)) + int(i)
